@@ -73,6 +73,7 @@ type pathState struct {
 	ghost      map[string]value
 
 	nondetMapOrder  bool
+	reverseMapOrder bool
 	concrete        bool // replay mode: all nondet values come from input model
 	input           Model
 	known           map[string]bool // enabled known-finding exclusions
